@@ -243,6 +243,65 @@ def process_case(rng, tier):
     return Case("process", req("phase", 0, 1), lambda: ok("1 0"), oracle, cls="process", info={"jobs": len(jobs)})
 
 
+LIB_SCRIPT = r"""
+import sys, json
+sys.path.insert(0, sys.argv[1])
+import warnings; warnings.simplefilter('ignore')
+import cnfgen
+from cnfgen import graphs as g
+seeds = [0, 7, -3, 2**40, 1.5, 'abc', '', b'bytes', bytearray(b'ba'), None]
+out = []
+for s in seeds:
+    if s is None:
+        continue
+    row = [repr(s)]
+    row.append([list(c) for c in cnfgen.RandomKCNF(3, 7, 6, seed=s)])
+    row.append([list(c) for c in cnfgen.RandomKXOR(3, 7, 4, seed=s)])
+    row.append(sorted(g.bipartite_random_left_regular(4, 5, 2, seed=s).edges()))
+    row.append(sorted(g.bipartite_random_m_edges(4, 4, 9, seed=s).edges()))
+    row.append(sorted(g.bipartite_random(4, 4, .5, seed=s).edges()))
+    row.append(sorted(g.bipartite_random_regular(4, 4, 2, seed=s).edges()))
+    G = g.Graph(6)
+    for e in ((1, 2), (2, 3), (3, 4), (4, 5), (5, 6), (1, 6)):
+        G.add_edge(*e)
+    row.append(sorted(g.add_random_missing_edges(G, 3, seed=s).edges()) if False else None)
+    out.append(row)
+print(json.dumps(out))
+"""
+
+
+def libproc_case():
+    """library generators called with the same `seed=` (ints, floats, strings, bytes, tuples) in fresh processes with
+    different PYTHONHASHSEED values must return the same object"""
+    def oracle():
+        tmp = tempfile.mkdtemp(prefix="verif-c07l-")
+        try:
+            path = os.path.join(tmp, "lib.py")
+            with open(path, "w") as fh:
+                fh.write(LIB_SCRIPT)
+            outs = []
+            for hs in ("0", "1", "4242", "random"):
+                env = dict(os.environ, PYTHONHASHSEED=hs, PYTHONWARNINGS="ignore")
+                p = subprocess.run([sys.executable, path, common.REPO], stdout=subprocess.PIPE, stderr=subprocess.PIPE,
+                                   env=env, timeout=300, cwd=tmp)
+                if p.returncode != 0:
+                    return {"library_script_failed": p.stderr.decode(errors="replace")[-400:]}
+                outs.append(p.stdout.decode())
+            import json as _j
+            rows = [_j.loads(o) for o in outs]
+            for other in rows[1:]:
+                for a, b in zip(rows[0], other):
+                    if a != b:
+                        which = [i for i, (x, y) in enumerate(zip(a, b)) if x != y]
+                        names = ["seed", "RandomKCNF", "RandomKXOR", "bipartite_random_left_regular",
+                                 "bipartite_random_m_edges", "bipartite_random", "bipartite_random_regular", "-"]
+                        return {"seed": a[0], "differs_between_processes": [names[i] for i in which]}
+            return None
+        finally:
+            shutil.rmtree(tmp, ignore_errors=True)
+    return Case("libproc", req("phase", 0, 1), lambda: ok("1 0"), oracle, cls="libproc", info={})
+
+
 def build(suite, info):
     if suite == "trace":
         cli = cli_cnfgen if info["tool"] == "cnfgen" else cli_pbgen
@@ -266,5 +325,6 @@ def cases(ctx):
     for s in (0, 1, -5, 2 ** 31, "0", "abc", rng.randint(2, 10 ** 6)):
         out.append(shuffle_case(s))
     out.append(lib_case(rng))
+    out.append(libproc_case())
     out.append(process_case(rng, tier))
     return out
